@@ -14,6 +14,7 @@
  Rs sorted        : every numpy.interp abscissa is ascending by construction or by a recorded precondition.
  R6 applied       : compute_nli's result reaches add_nli unchanged, and add_nli moves exactly that amount (shared with C01-R3).
  Rn arg roles     : a variable named like a parameter of the callee is handed to that parameter (no exchanged roles).
+ R7 fibre inputs  : f_ref x lambda_ref = c for every input form; NLI evaluated after input connector + padding (shared with C05-R1).
 """
 import ast
 from fractions import Fraction
@@ -313,6 +314,17 @@ def rn_arg_roles(ctx):
     ctx.check('Rn.arg-roles', 'argument / parameter name scan', True, 'C03|arg-roles-scan', '', f'{n} argument(s) named like another parameter judged')
 
 
+def r7_fibre_inputs(ctx):
+    """R7: what the closed form is evaluated ON: the fibre's reference point is one point (f_ref x lambda_ref = c for every way it can
+    be given), and the NLI is computed on the spectrum as it enters the glass - after input connector AND padding, before the
+    fibre loss and the output connector (order of the power-changing calls of Fiber / RamanFiber.propagate, shared with C05-R1)"""
+    from .common import ref_pair_rule, proxy
+    from .c05 import r1_once
+    ref_pair_rule(ctx, 'R7.ref-point', 'gamma / beta2 would be scaled from another frequency than the one the user gave, and the NLI leave the closed form')
+    r1_once(proxy(ctx, 'R7'))
+    ctx.need('R7.ref-point', 2)
+
+
 from ..memo import rule_for as _memo_rule
 
 RULES_MEMO = ('Rm.memo', _memo_rule('C03', 'the NLI of another fibre configuration or spectrum would be applied'))
@@ -322,4 +334,4 @@ from ..presence import rule_for as _presence_rule
 
 RULES_PRESENCE = ('Rp.presence', _presence_rule('C03', 'a fibre given an explicit 0 would get the default model instead'))
 
-RULES = [('R5.order-independence', r5_sorted), ('R1.closed-form', r1_closed_form), ('R2.combination', r2_combination), ('R3.coefficients', r3_coefficients), RULES_MEMO, RULES_PRESENCE, ('Rs.sorted-abscissa', rs_sorted), ('R6.applied', r6_applied), ('Rn.arg-roles', rn_arg_roles)]
+RULES = [('R5.order-independence', r5_sorted), ('R1.closed-form', r1_closed_form), ('R2.combination', r2_combination), ('R3.coefficients', r3_coefficients), RULES_MEMO, RULES_PRESENCE, ('Rs.sorted-abscissa', rs_sorted), ('R6.applied', r6_applied), ('Rn.arg-roles', rn_arg_roles), ('R7.fibre-inputs', r7_fibre_inputs)]
